@@ -100,6 +100,21 @@ RULES = {
            "names); the written text is parsed (balanced, only namespace / class lines) and the multiset of declared "
            "qualified names must equal the expected set; samples compiled with g++ and clang++; distinct = distinct "
            "inputs with >= 2 classes and a namespace",
+    "C11": "generated programs (16 methods each) over parameter kind {T&, const T&, T&&, T*, shared_ptr<T>, const "
+           "shared_ptr<T>&, virtual_ptr<T>, const virtual_ptr<T>&, virtual_shared_ptr<T>, const virtual_shared_ptr<T>&} x "
+           "inheritance shape between method class and definition class {same, single, second base at non-zero "
+           "offset, virtual base, two levels, two levels mixed; object of the definition class or of a class derived "
+           "from it} x position (1-4 parameters, optionally a second virtual parameter) x non-virtual category {by "
+           "value from prvalue / xvalue, lvalue ref, const ref, rvalue ref, move-only by value, int, double, string} x "
+           "return {void, int, by value, reference} x API {method class, macros}; inside each definition the address "
+           "seen is compared with static_cast<D*>(&object) computed by the caller, ownership with owner_before, copy / "
+           "move counters, return values; all kind x shape pairs are covered in quick; distinct = distinct combinations",
+    "C20": "generated programs: one method over N x M (x K) classes, definition template specialised through a "
+           "generated DEFINED table (all / none / diagonal / one row missing / random / 97%), nested method alias or "
+           "method as first template argument; at run time the method's catalog is enumerated and the set of "
+           "registered combinations compared with the table (missing / extra / twice), every combination is "
+           "dispatched, product order is static_asserted at sampled indexes; sizes on both sides of the 512 split "
+           "(506, 512, 513, 529, 576, 1024, 1025, 1089 in thorough); distinct = distinct (sizes, table) programs",
     "C17": "update report flags compared with exhaustive oracle enumeration over all tuples of acceptable classes "
            "(all / concrete only), cells compared with the tables built; non-trivial = registry with >= 1 method",
 }
@@ -149,6 +164,24 @@ def clean_emit(check):
     emit = os.path.join(check.outdir, "emit")
     shutil.rmtree(emit, ignore_errors=True)
     os.makedirs(emit, exist_ok=True)
+
+
+def tierb_plan(prop, tier, gen, min_eval=20, max_parallel=12, assumptions=None):
+    import tierb
+    from vfcheck import base_seed
+    c = Check(prop, tier, RULES[prop], assumptions=(assumptions or []) + [
+        "tier B: programs generated by lib/%s.py use only the public API and check themselves while running "
+        "(clang++-14 -O0 ASan+UBSan; thorough adds g++ -O2 -DNDEBUG and debug-policy builds)" % gen.__name__,
+        "expectations inside the programs are computed by the C++ compiler itself (static_cast / addresses taken by "
+        "the caller) or by the generator's table"], min_evaluations=min_eval)
+
+    def run():
+        progs = gen.programs(tier, base_seed() % 100000)
+        tierb.run_programs(c, progs, max_parallel=max_parallel)
+        c.extra_evidence["programs"] = len(progs)
+        return c.finish()
+    c.run = run
+    return c
 
 
 def harness_plan(prop, tier, quick, thorough, min_eval=1000, policy=None, extra=None, salt=0, level="exploration",
@@ -217,6 +250,12 @@ def plan(prop, tier):
         clean_emit(c)
         c.post = compile_emitted
         return c
+    if prop == "C11":
+        import gen_c11
+        return tierb_plan(prop, tier, gen_c11, min_eval=200)
+    if prop == "C20":
+        import gen_c20
+        return tierb_plan(prop, tier, gen_c20, min_eval=50, max_parallel=8)
     if prop == "C17":
         return harness_plan(prop, tier, [("rel", 10, 500), ("asan", 4, 150)], [("rel", 14, 15000), ("asan", 10, 3000)])
     return None
